@@ -411,6 +411,9 @@ def main():
     if a.verbose:
         for o in all_obs:
             print("   ", o["status"], o["name"], o.get("reason", ""))
+    for ob in out_of_reach:
+        print(f"OUT-OF-REACH property={pid} obligation={ob['name']} reason={ob.get('reason')} "
+              f"(no obligation generated; decided by the bounded stand-in only)")
     for e in errors:
         print(f"CHECKER-ERROR property={pid} {e}")
     if violations:
@@ -420,9 +423,6 @@ def main():
         sys.exit(1)
     if errors:
         sys.exit(3)
-    for ob in out_of_reach:
-        print(f"OUT-OF-REACH property={pid} obligation={ob['name']} reason={ob.get('reason')} "
-              f"(no obligation generated; decided by the bounded stand-in only)")
     if undecided:
         for ob in undecided:
             print(f"UNDECIDED property={pid} obligation={ob['name']} reason={ob.get('reason')}")
